@@ -236,6 +236,109 @@ def h_levels_no_nulls(l: int, v2: bool) -> bool:
     return header == l * 2 and items[1] == 1 and out.n == l
 
 
+class _NullData:
+    """a page of n rows with NULLs: notnull() is the presence mask, data[mask] the present rows"""
+
+    def __init__(self, n, present):
+        self.n, self.present = n, present
+
+    def __len__(self):
+        return self.n
+
+    def notnull(self):
+        return _Mask(self.n)
+
+    def __getitem__(self, mask):
+        return _NullData(self.present, self.present)
+
+
+class _Mask:
+    def __init__(self, n):
+        self.n = n
+
+    def __len__(self):
+        return self.n
+
+
+def _s_encode_plain_bool(mask, se):
+    # writer.convert (BOOLEAN): the mask is padded with 8 - (n % 8) zero bits and packed LSB-first, i.e. n // 8 + 1
+    # bytes - a whole extra zero byte when n is a multiple of 8 (numpy pad/packbits, contract)
+    return Seg("mask", mask.n // 8 + 1)
+
+
+def h_levels_with_nulls(n: int, present: int, v2: bool) -> bool:
+    """
+    pre: 1 <= n <= 72 and 0 <= present < n
+    post: __return__
+    """
+    # (row counts 1..72, one path per count: the run header is built with `<< 1 | 1`, which CrossHair does not model
+    # on symbolic integers - the counts cover every residue modulo 8)
+    from crosshair import realize
+    n = realize(n)
+    # a page holding NULLs: <len32> <varint(nbytes << 1 | 1)> <nbytes of packed presence bits>; the length prefix (v1)
+    # announces exactly the bytes that follow it, the run header announces exactly the packed bytes, and these cover
+    # all n rows
+    saved = (writer.NumpyIO, writer.cencoding, writer.struct, writer.np, writer.encode_plain)
+    writer.NumpyIO, writer.cencoding, writer.struct, writer.np = PyIO, _CEnc, _StructLE, _NP
+    writer.encode_plain = _s_encode_plain_bool
+    writer.bytes = lambda x: x
+    try:
+        block, out = writer.make_definitions(_NullData(n, present), False, datapage_version=2 if v2 else 1)
+    finally:
+        writer.NumpyIO, writer.cencoding, writer.struct, writer.np, writer.encode_plain = saved
+        del writer.bytes
+    items = list(block.items)
+    if not v2:
+        tag, announced, w = items[0]
+        if tag != "len32" or announced != len(block) - 4:
+            return False
+        items = items[1:]
+    if len(items) != 2 or items[0][0] != "varint" or not isinstance(items[1], Seg):
+        return False
+    header, nbytes = items[0][1], len(items[1])
+    # bit-packed run: header = (groups << 1) | 1 with one group = 8 one-bit values = 1 byte
+    return header == nbytes * 2 + 1 and nbytes * 8 >= n and out.n == present
+
+
+def replay_h_levels_with_nulls(n, present, v2):
+    """a real float column with NULLs written as one page, parsed the way the format text says: the values start
+    right after the announced level bytes"""
+    import shutil, struct, tempfile
+    import numpy as np
+    import pandas as pd
+    import fastparquet
+    from fastparquet import writer as w
+    from fastparquet.cencoding import ThriftObject, NumpyIO
+    vals = np.array([float(i + 1) if i < present else np.nan for i in range(n)])
+    d = tempfile.mkdtemp(prefix="c02-")
+    old = w.DATAPAGE_VERSION
+    try:
+        w.DATAPAGE_VERSION = 2 if v2 else 1
+        fn = os.path.join(d, "t.parq")
+        fastparquet.write(fn, pd.DataFrame({"x": vals}), has_nulls=True)
+        pf = fastparquet.ParquetFile(fn)
+        md = pf.row_groups[0].columns[0].meta_data
+        raw = open(fn, "rb").read()
+        io = NumpyIO(np.frombuffer(raw[md.data_page_offset:md.data_page_offset + md.total_compressed_size], "uint8"))
+        ph = ThriftObject.from_buffer(io, "PageHeader")
+        body = raw[md.data_page_offset + io.tell():md.data_page_offset + io.tell() + ph.compressed_page_size]
+        if v2:
+            lv = ph.data_page_header_v2.definition_levels_byte_length
+            start = lv
+        else:
+            lv = struct.unpack("<I", body[:4])[0]
+            start = 4 + lv
+        got = np.frombuffer(body[start:start + 8 * present], dtype="<f8").tolist()
+        want = [float(i + 1) for i in range(present)]
+        if got != want:
+            return True, "page of %d rows (%d present): the announced %d level bytes are followed by %r, the values " \
+                         "written are %r" % (n, present, lv, got[:3], want[:3])
+        return False, "values follow the announced level bytes"
+    finally:
+        w.DATAPAGE_VERSION = old
+        shutil.rmtree(d, ignore_errors=True)
+
+
 # -------------------------------------------------------------- L5: dictionary index framing ---
 def h_dict_index_framing(n: int, wbytes: int) -> bool:
     """
